@@ -342,7 +342,7 @@ pub fn op_strategy(p: &Profile) -> BoxedStrategy<Op> {
     add(p.w_churn, (usel.clone(), churn_cycles).prop_map(|(x, cycles)| Op::Churn { x, cycles }).boxed());
     add(p.w_probe, any::<u64>().prop_map(|seed| Op::Probe { seed }).boxed());
     add(p.w_clear, Just(Op::Clear).boxed());
-    add(p.w_reserve, (0u16..64).prop_map(|k| Op::Reserve { k }).boxed());
+    add(p.w_reserve, prop_oneof![8 => 0u32..64, 1 => 1000u32..5000, 1 => 60_000u32..70_000].prop_map(|k| Op::Reserve { k }).boxed());
     add(p.w_roundtrip, Just(Op::Roundtrip).boxed());
     {
         let g: Vec<(u32, BoxedStrategy<u32>)> = p.grow.iter().map(|&(w, lo, hi)| (w, (lo..=hi).boxed())).collect();
@@ -414,7 +414,7 @@ pub fn decode_bytes(bytes: &[u8], max_ops: usize) -> Vec<Op> {
                 _ => match c.u8()? % 5 {
                     4 => Op::Grow { under: Sel::Live(c.u16()?), n: (c.u8()? as u32 % 40) + 1, shape: c.u8()? },
                     0 => Op::Clear,
-                    1 => Op::Reserve { k: c.u8()? as u16 },
+                    1 => Op::Reserve { k: c.u8()? as u32 },
                     _ => Op::Roundtrip,
                 },
             })
